@@ -204,13 +204,13 @@ Proof.
        end; repeat split; auto; first [left; eexists; split; [eassumption | reflexivity] | right; split; [assumption | reflexivity]].
 Qed.
 
-Lemma adv_le_effect : forall n j c b d sr c' e o, on_message n j c (MAdv b d sr) = (c', e, o) ->
+Lemma adv_le_effect : forall cs n j c b d sr c' e o, on_message cs n j c (MAdv b d sr) = (c', e, o) ->
   (c_le c' = c_le c /\ o = [])
   \/ (creates c b = true /\ exists own h, c_pending c = Some (b, own) /\ tbl_get (c_le c) b = None /\
         c_le c' = c_le c ++ [mkConn b (if own then c_public c else c_random c) h true] /\
         o = broadcast n j (MConnInd (if own then c_public c else c_random c) b)).
 Proof.
-  intros n j c b d sr c' e o H. simpl in H. unfold on_adv, create_le_connection in H.
+  intros cs n j c b d sr c' e o H. simpl in H. unfold on_adv, create_le_connection in H.
   destruct (c_pending c) as [[peer own]|] eqn:Hp; [|inversion H; subst; now left].
   destruct (peer =? b) eqn:Epb; [|inversion H; subst; now left].
   apply Z.eqb_eq in Epb. subst peer.
@@ -221,28 +221,37 @@ Proof.
   - exists own, h. repeat split; auto. simpl. now apply tbl_set_app.
 Qed.
 
-Lemma connind_le_effect : forall n j c a b c' e o, on_message n j c (MConnInd a b) = (c', e, o) ->
-  o = [] /\ (if accepts c b then exists h, c_le c' = tbl_set (c_le c) (mkConn a b h false)
-             else c_le c' = c_le c).
+Lemma connind_le_effect : forall cs n j c a b c' e o, on_message cs n j c (MConnInd a b) = (c', e, o) ->
+  if accepts c b then o = [] /\ exists h, c_le c' = tbl_set (c_le c) (mkConn a b h false)
+  else c_le c' = c_le c /\ (o = [] \/ o = refuse cs j c a b).
 Proof.
-  intros n j c a b c' e o H. simpl in H. unfold on_connect_ind in H. unfold accepts.
+  intros cs n j c a b c' e o H. simpl in H. unfold on_connect_ind in H. unfold accepts.
   destruct (andb (leg_address c =? b) (c_leg_enabled c)).
   - destruct (alloc c) as [h|]; inversion H; subst; simpl; split; auto. now exists h.
   - destruct (find_set c (c_sets c) b); [|inversion H; subst; simpl; split; auto].
     destruct (alloc c) as [h|]; inversion H; subst; simpl; split; auto. now exists h.
 Qed.
 
-Lemma term_le_effect : forall n j c a r c' e o, on_message n j c (MTerm a r) = (c', e, o) ->
+Lemma connind_refused : forall cs n j c a b c' e o, alloc c <> None -> accepts c b = false ->
+  on_message cs n j c (MConnInd a b) = (c', e, o) -> c' = c /\ e = [] /\ o = refuse cs j c a b.
+Proof.
+  intros cs n j c a b c' e o Hal Hacc H. simpl in H. unfold on_connect_ind in H. unfold accepts in Hacc.
+  destruct (alloc c) as [h|]; [|congruence]. rewrite andb_true_r in Hacc.
+  apply orb_false_iff in Hacc. destruct Hacc as [H1 H2]. rewrite H1 in H.
+  destruct (find_set c (c_sets c) b); [discriminate|]. inversion H; subst. auto.
+Qed.
+
+Lemma term_le_effect : forall cs n j c a r c' e o, on_message cs n j c (MTerm a r) = (c', e, o) ->
   o = [] /\ c_le c' = match tbl_get (c_le c) a with Some _ => tbl_del (c_le c) a | None => c_le c end.
 Proof.
-  intros n j c a r c' e o H. simpl in H. unfold on_terminate in H.
+  intros cs n j c a r c' e o H. simpl in H. unfold on_terminate in H.
   destruct (tbl_get (c_le c) a); inversion H; subst; auto.
 Qed.
 
-Lemma other_le_effect : forall n j c m c' e o, on_message n j c m = (c', e, o) ->
+Lemma other_le_effect : forall cs n j c m c' e o, on_message cs n j c m = (c', e, o) ->
   is_ctl m = false -> is_bcast m = false -> c_le c' = c_le c /\ o = [].
 Proof.
-  intros n j c m c' e o H H1 H2.
+  intros cs n j c m c' e o H H1 H2.
   destruct m; simpl in H1, H2; try discriminate; simpl in H; unfold_handlers H; break_all; inv_pairs; auto.
 Qed.
 
@@ -265,9 +274,9 @@ Proof.
   destruct l; simpl in H; unfold_handlers H; break_all; inv_pairs; solve_not_self.
 Qed.
 
-Lemma message_not_self : forall n j c m c' e o, on_message n j c m = (c', e, o) -> not_self o.
+Lemma message_not_self : forall cs n j c m c' e o, on_message cs n j c m = (c', e, o) -> not_self o.
 Proof.
-  intros n j c m c' e o H.
+  intros cs n j c m c' e o H.
   destruct m; simpl in H; unfold_handlers H; break_all; inv_pairs; solve_not_self.
 Qed.
 
@@ -497,11 +506,10 @@ Lemma sinv_accept : forall s k i1 j0 a b c c' h,
   sinv s -> ginv (mkState (upd (st_cs s) j0 c') (remove_nth k (st_net s) ++ [])) ->
   nth_error (st_net s) k = Some (i1, j0, MConnInd a b) ->
   nth_error (st_cs s) j0 = Some c -> addr_same c c' -> owns c b ->
-  tbl_get (c_le c) a = None -> c_le c' = tbl_set (c_le c) (mkConn a b h false) ->
+  c_le c' = tbl_set (c_le c) (mkConn a b h false) ->
   sinv (mkState (upd (st_cs s) j0 c') (remove_nth k (st_net s) ++ [])).
 Proof.
-  intros s k i1 j0 a b c c' h S G' Hk Hj Hs Hob Hnone Hle.
-  rewrite (tbl_set_app (c_le c) (mkConn a b h false) Hnone) in Hle. set (new := mkConn a b h false) in *.
+  intros s k i1 j0 a b c c' h S G' Hk Hj Hs Hob Hle.
   pose proof (nth_error_In _ _ Hk) as Hkin.
   destruct (g_net s (si_g s S) _ _ _ Hkin) as [ci1 [Hi1 Hoa]]. simpl in Hoa.
   assert (Hne : i1 <> j0) by (eapply (si_bc s S); eauto).
@@ -511,6 +519,13 @@ Proof.
   pose proof (si_pair s S _ _ _ _ Hne Hi1 Hj) as Hp. unfold pair_ok in Hp.
   assert (Hin : In (i1, j0, MConnInd a b) (rel s i1 j0)) by (apply filter_In; auto).
   destruct (state_with_connind _ _ _ _ _ _ _ _ Hp Hin) as [e [T1 [E1 [E2 [E3 [T2 [R1 R2]]]]]]].
+  (* the addressee holds nothing towards the initiator, in particular nothing filed under a *)
+  assert (Hnone : tbl_get (c_le c) a = None).
+  { destruct (tbl_get (c_le c) a) as [k0|] eqn:Eg; [|reflexivity]. exfalso.
+    apply tbl_get_in in Eg. destruct Eg as [Hk0 Hp0].
+    assert (Hin0 : In k0 (towards ci1 c)) by (apply towards_in; split; [assumption | now rewrite Hp0]).
+    rewrite T2 in Hin0. contradiction. }
+  rewrite (tbl_set_app (c_le c) (mkConn a b h false) Hnone) in Hle. set (new := mkConn a b h false) in *.
   rewrite app_nil_r in *.
   assert (Hother : forall x y, (x <> i1 \/ y <> j0) ->
             filter (rel_pkt (st_cs s) x y) (remove_nth k (st_net s)) = filter (rel_pkt (st_cs s) x y) (st_net s)).
@@ -536,6 +551,64 @@ Proof.
       simpl k_peer. rewrite Hna, app_nil_r.
       rewrite (Hother y j0) by (left; auto).
       exact (si_pair s S _ _ _ _ (not_eq_sym Hy) Hj Hcy).
+Qed.
+
+Lemma filter_one : forall {A} (g : A -> bool) p, filter g [p] = if g p then [p] else [].
+Proof. reflexivity. Qed.
+
+Lemma owns_own_address : forall c a, owns c a -> own_address c a = true.
+Proof.
+  unfold owns, own_address. intros c a [->| ->]; rewrite Z.eqb_refl; [reflexivity | now rewrite orb_true_r].
+Qed.
+
+(* ---- case B'': the addressee j0 of a ConnectInd(a, b) from i1 no longer advertises b and refuses (D06d) *)
+Lemma sinv_refuse : forall s k i1 j0 a b c,
+  sinv s -> ginv (mkState (upd (st_cs s) j0 c) (remove_nth k (st_net s) ++ refuse (st_cs s) j0 c a b)) ->
+  nth_error (st_net s) k = Some (i1, j0, MConnInd a b) ->
+  nth_error (st_cs s) j0 = Some c -> owns c b ->
+  sinv (mkState (upd (st_cs s) j0 c) (remove_nth k (st_net s) ++ refuse (st_cs s) j0 c a b)).
+Proof.
+  intros s k i1 j0 a b c S G' Hk Hj Hob.
+  pose proof (si_g s S) as G.
+  pose proof (nth_error_In _ _ Hk) as Hkin.
+  destruct (g_net s G _ _ _ Hkin) as [ci1 [Hi1 Hoa]]. simpl in Hoa.
+  assert (Hne : i1 <> j0) by (eapply (si_bc s S); eauto).
+  assert (Hrelp : rel_pkt (st_cs s) i1 j0 (i1, j0, MConnInd a b) = true).
+  { unfold rel_pkt. rewrite !Nat.eqb_refl, Hj. simpl. now apply owns_b_iff. }
+  pose proof (si_pair s S _ _ _ _ Hne Hi1 Hj) as Hp. unfold pair_ok in Hp.
+  assert (Hin : In (i1, j0, MConnInd a b) (rel s i1 j0)) by (apply filter_In; auto).
+  destruct (state_with_connind _ _ _ _ _ _ _ _ Hp Hin) as [e [T1 [E1 [E2 [E3 [T2 [R1 R2]]]]]]].
+  assert (He : In e (c_le ci1)) by (apply (proj1 (towards_in c ci1 e)); rewrite T1; now left).
+  assert (Hfind : find_le (st_cs s) a = Some i1) by (rewrite <- E2; eapply find_le_holder; eauto).
+  unfold refuse in *. rewrite (owns_own_address _ _ Hob), Hfind in *.
+  set (pkt := (j0, i1, MTerm b 62)) in *.
+  assert (Hrelt : rel_pkt (st_cs s) j0 i1 pkt = true).
+  { unfold pkt, rel_pkt. now rewrite !Nat.eqb_refl, Hi1. }
+  assert (Hpo : forall x y, (x <> j0 \/ y <> i1) -> rel_pkt (st_cs s) x y pkt = false).
+  { intros x y Hxy. destruct (rel_pkt (st_cs s) x y pkt) eqn:E; [|reflexivity].
+    apply rel_pkt_true in E. destruct E as [-> [-> _]]. destruct Hxy; congruence. }
+  assert (Hother : forall x y, (x <> i1 \/ y <> j0) ->
+            filter (rel_pkt (st_cs s) x y) (remove_nth k (st_net s)) = filter (rel_pkt (st_cs s) x y) (st_net s)).
+  { intros x y Hxy. apply (filter_remove_other _ _ _ _ Hk).
+    destruct (rel_pkt (st_cs s) x y (i1, j0, MConnInd a b)) eqn:E; [|reflexivity].
+    apply rel_pkt_true in E. destruct E as [-> [-> _]]. destruct Hxy; congruence. }
+  eapply sinv_update; eauto.
+  - intros src dst m Hin' Hm. apply in_app_or in Hin'. destruct Hin' as [Hin'|[Hin'|[]]].
+    + apply remove_nth_in in Hin'. eapply (si_bc s S); eauto.
+    + inversion Hin'; subst. auto.
+  - intros y cy Hy Hcy. rewrite !filter_app, !filter_one.
+    rewrite (Hother j0 y) by (left; auto).
+    destruct (Nat.eq_dec y i1) as [->|Hyi].
+    + rewrite Hcy in Hi1. inversion Hi1; subst ci1.
+      rewrite (filter_single_remove _ _ _ _ Hk Hrelp R1).
+      rewrite Hrelt, (Hpo i1 j0) by (left; auto).
+      unfold rel in R2. rewrite R2, T1, T2. simpl.
+      right. right. left. right. exists e, 62. unfold pkt. rewrite E3. auto.
+    + rewrite (Hother y j0) by (left; auto).
+      rewrite (Hpo j0 y) by (right; auto). rewrite (Hpo y j0) by (left; auto). rewrite !app_nil_r.
+      exact (si_pair s S _ _ _ _ (not_eq_sym Hy) Hj Hcy).
+  - intros x y Hx Hy. rewrite filter_app, filter_one, (Hpo x y) by (left; auto). rewrite app_nil_r.
+    apply Hother. right. exact Hy.
 Qed.
 
 (* ---- case B': a ConnectInd delivered to a controller that does not own the address *)
@@ -571,9 +644,6 @@ Proof.
   intros cy c e Hk H. rewrite filter_del by assumption. rewrite filter_filter. fold (towards cy c). rewrite H.
   simpl. now rewrite Z.eqb_refl.
 Qed.
-
-Lemma filter_one : forall {A} (g : A -> bool) p, filter g [p] = if g p then [p] else [].
-Proof. reflexivity. Qed.
 
 (* when nothing is in flight between i and the owner j of the peer address of one of i's
    connections, j holds the mirror connection, so the link finds j for that address *)
@@ -729,7 +799,7 @@ Proof.
       eapply sinv_disconnect; eauto.
   - (* delivery of message m from src to dst *)
     subst s' evs. destruct (g_c s G _ _ H2) as [Cd Ad].
-    destruct (message_ainv _ _ _ _ _ _ _ Ad H3) as [Hs [_ _]].
+    destruct (message_ainv _ _ _ _ _ _ _ _ Ad H3) as [Hs [_ _]].
     unfold guard_sym in Gd. apply andb_true_iff in Gd. destruct Gd as [_ Gd]. subst l. rewrite H0, H2 in Gd.
     assert (Hneutral : is_ctl m = false -> c_le c' = c_le c -> out = [] ->
               sinv (mkState (upd (st_cs s) dst c') (remove_nth k (st_net s) ++ out))).
@@ -742,27 +812,30 @@ Proof.
         apply rel_pkt_true in E. destruct E as [_ [_ [cy [_ Hr]]]]. apply rel_msg_ctl in Hr. congruence. }
     destruct m.
     + (* MAdv *)
-      destruct (adv_le_effect _ _ _ _ _ _ _ _ _ H3) as [[Hle ->]|[Hcr [own [h [Hp [Hn [Hle ->]]]]]]].
+      destruct (adv_le_effect _ _ _ _ _ _ _ _ _ _ H3) as [[Hle ->]|[Hcr [own [h [Hp [Hn [Hle ->]]]]]]].
       * apply Hneutral; auto.
       * rewrite Hcr in Gd. eapply sinv_create; eauto.
     + (* MConnInd *)
-      destruct (connind_le_effect _ _ _ _ _ _ _ _ H3) as [-> Hacc].
+      pose proof (connind_le_effect _ _ _ _ _ _ _ _ _ H3) as Hacc.
       destruct (owns_b c adv) eqn:Eo.
-      * apply andb_true_iff in Gd. destruct Gd as [Gacc Gnone]. rewrite Gacc in Hacc. destruct Hacc as [h Hle].
-        destruct (tbl_get (c_le c) init) eqn:Eg; [discriminate|].
-        apply owns_b_iff in Eo. eapply sinv_accept; eauto.
+      * apply owns_b_iff in Eo. destruct (accepts c adv) eqn:Ea.
+        -- destruct Hacc as [-> [h Hle]]. eapply sinv_accept; eauto.
+        -- destruct (alloc c) as [h0|] eqn:Hal; [|discriminate].
+           assert (Hal' : alloc c <> None) by congruence.
+           destruct (connind_refused _ _ _ _ _ _ _ _ _ Hal' Ea H3) as [-> [_ ->]].
+           eapply sinv_refuse; eauto.
       * apply owns_b_false in Eo.
-        destruct (connect_ind_effect _ _ _ _ _ _ _ _ Ad H3) as [_ [Hign _]]. destruct (Hign Eo) as [-> _].
-        eapply sinv_ignore; eauto.
+        destruct (connect_ind_effect _ _ _ _ _ _ _ _ _ Ad H3) as [Hign _].
+        destruct (Hign Eo) as [-> [_ ->]]. eapply sinv_ignore; eauto.
     + (* MTerm *)
-      destruct (term_le_effect _ _ _ _ _ _ _ _ H3) as [-> Hle]. eapply sinv_terminate; eauto.
-    + destruct (other_le_effect _ _ _ _ _ _ _ H3 eq_refl eq_refl) as [Hle Ho]. apply Hneutral; auto.
-    + destruct (other_le_effect _ _ _ _ _ _ _ H3 eq_refl eq_refl) as [Hle Ho]. apply Hneutral; auto.
-    + destruct (other_le_effect _ _ _ _ _ _ _ H3 eq_refl eq_refl) as [Hle Ho]. apply Hneutral; auto.
-    + destruct (other_le_effect _ _ _ _ _ _ _ H3 eq_refl eq_refl) as [Hle Ho]. apply Hneutral; auto.
-    + destruct (other_le_effect _ _ _ _ _ _ _ H3 eq_refl eq_refl) as [Hle Ho]. apply Hneutral; auto.
-    + destruct (other_le_effect _ _ _ _ _ _ _ H3 eq_refl eq_refl) as [Hle Ho]. apply Hneutral; auto.
-    + destruct (other_le_effect _ _ _ _ _ _ _ H3 eq_refl eq_refl) as [Hle Ho]. apply Hneutral; auto.
+      destruct (term_le_effect _ _ _ _ _ _ _ _ _ H3) as [-> Hle]. eapply sinv_terminate; eauto.
+    + destruct (other_le_effect _ _ _ _ _ _ _ _ H3 eq_refl eq_refl) as [Hle Ho]. apply Hneutral; auto.
+    + destruct (other_le_effect _ _ _ _ _ _ _ _ H3 eq_refl eq_refl) as [Hle Ho]. apply Hneutral; auto.
+    + destruct (other_le_effect _ _ _ _ _ _ _ _ H3 eq_refl eq_refl) as [Hle Ho]. apply Hneutral; auto.
+    + destruct (other_le_effect _ _ _ _ _ _ _ _ H3 eq_refl eq_refl) as [Hle Ho]. apply Hneutral; auto.
+    + destruct (other_le_effect _ _ _ _ _ _ _ _ H3 eq_refl eq_refl) as [Hle Ho]. apply Hneutral; auto.
+    + destruct (other_le_effect _ _ _ _ _ _ _ _ H3 eq_refl eq_refl) as [Hle Ho]. apply Hneutral; auto.
+    + destruct (other_le_effect _ _ _ _ _ _ _ _ H3 eq_refl eq_refl) as [Hle Ho]. apply Hneutral; auto.
   - (* a message to a controller that does not exist is dropped *)
     subst s' evs out. destruct S as [_ Sbc Speer Spair]. constructor; simpl; auto.
     + intros src0 dst0 m0 Hin Hm. apply remove_nth_in in Hin. eauto.
@@ -831,21 +904,40 @@ Proof.
   apply towards_in. auto.
 Qed.
 
-(* The guard is needed: with two centrals racing for one advertiser (finding D06d) the
-   schedule satisfies the address hypotheses but not the guard, and the tables end up
-   asymmetric with nothing in flight: controller 1 holds a connection to controller 2,
-   which holds none to it. *)
+(* The guard is needed: two controllers that advertise and connect to each other at the same
+   time, each using the address it advertises as its own address.  The second creation happens
+   while the first ConnectInd is in flight (pair not idle); both tables are keyed by peer address,
+   so each accepted ConnectInd overwrites the central connection: the schedule satisfies the
+   address hypotheses but not the guard, and ends, with nothing in flight, with two peripheral
+   entries facing each other. *)
 Lemma tables_symmetric_refuted_without_guard : exists cfg ls,
   cfg_ok cfg = true /\ run_ok guard_static (init cfg) ls = true /\ run_ok guard_sym (init cfg) ls = false /\
   let s := run_state (init cfg) ls in
-  pair_quiet s 1 2 = true /\
-  match nth_error (st_cs s) 1, nth_error (st_cs s) 2 with
-  | Some c1, Some c2 => andb (negb (nil_b (towards c2 c1))) (nil_b (towards c1 c2))
+  pair_quiet s 0 1 = true /\
+  match nth_error (st_cs s) 0, nth_error (st_cs s) 1 with
+  | Some c0, Some c1 =>
+      match towards c1 c0, towards c0 c1 with
+      | [e], [e'] => Bool.eqb (k_central e) (k_central e')
+      | _, _ => false
+      end
   | _, _ => false
   end = true.
 Proof.
-  exists [(10, 11, false); (20, 21, false); (30, 31, false)].
-  exists [LConnect 0 31 false; LConnect 1 31 false; LAdvParams 2 false true; LAdvEnable 2 true; LTick 2;
-          LDeliver 0; LDeliver 0; LDeliver 0; LDeliver 0; LDeliver 0; LDeliver 0].
+  exists [(10, 11, false); (20, 21, false)].
+  exists [LAdvParams 0 false true; LAdvEnable 0 true; LAdvParams 1 false true; LAdvEnable 1 true;
+          LConnect 0 21 false; LConnect 1 11 false; LTick 0; LTick 1;
+          LDeliver 0; LDeliver 0; LDeliver 0; LDeliver 0].
   vm_compute. repeat split.
 Qed.
+
+(* the race of finding D06d (two centrals, one advertiser) is inside the guard since D06d.patch:
+   the loser is refused and both tables end up symmetric *)
+Lemma race_is_symmetric :
+  let cfg := [(10, 11, false); (20, 21, false); (30, 31, false)] in
+  let ls := [LConnect 0 31 false; LConnect 1 31 false; LAdvParams 2 false true; LAdvEnable 2 true; LTick 2;
+             LDeliver 0; LDeliver 0; LDeliver 0; LDeliver 0; LDeliver 0; LDeliver 0; LDeliver 0] in
+  cfg_ok cfg = true /\ run_ok guard_sym (init cfg) ls = true /\
+  let '(s, tr) := run (init cfg) ls in
+  st_net s = [] /\ map (fun c => map conn_obs (c_le c)) (st_cs s) = [[(31, 11, 1, true)]; []; [(11, 31, 1, false)]] /\
+  In [(1%nat, EDisc 1 62)] (map fst tr).
+Proof. vm_compute. repeat split. do 11 right. left. reflexivity. Qed.
